@@ -1,1 +1,962 @@
-(* placeholder: proofs are delivered into this file *)
+(* Proofs for C02 and the file part of C08: the model of execute_encrypt (FileModel.enc) produces,
+   byte for byte, the documented format (FileSpec.wenc_spec).
+
+   Layout:
+   0. list helpers (chunks, concat, firstn/skipn, set_nth);
+   1. the IV chain: model SHA-1 chain = specification chain, length, byte range;
+   2. the loads of the encryptor = the chunks of the PKCS#7-padded plaintext ([mkloads]);
+   3. [run] keeps blocks well formed; export never fails with padding; the pipeline over
+      [mkloads chs] is the plain recursive function [pc];
+   4. striping: [pc] equals the round-robin / continuous-stream description of the specification;
+   5. header, tag, patch arithmetic, length;
+   6. the four required lemmas and non-vacuity examples. *)
+From Coq Require Import NArith List Bool Arith Lia PeanoNat.
+From Wencry Require Import Bytes AesSpec AesModel ModesSpec ModesModel HashSpec HashModel.
+From Wencry Require Import AesProofs ModesProofs HashProofs HmacProofs.
+From Wencry Require Import FileModel FileSpec FileProps.
+Import ListNotations.
+Local Open Scope nat_scope.
+
+(* ------------------------------------------------------------------------------------------ *)
+(* 0. helpers                                                                                  *)
+(* ------------------------------------------------------------------------------------------ *)
+
+Lemma chunks_fuel_nil {A} f n : @chunks_fuel A f n [] = [].
+Proof. destruct f; reflexivity. Qed.
+
+Lemma chunks_small {A} n (l : list A) : l <> [] -> length l <= n -> chunks n l = [l].
+Proof.
+  intros Hne Hl. unfold chunks. destruct l as [|x l]; [congruence|].
+  change (length (x :: l)) with (S (length l)) at 1.
+  rewrite chunks_fuel_S by discriminate.
+  rewrite firstn_all2 by exact Hl. rewrite skipn_all2 by exact Hl.
+  rewrite chunks_fuel_nil. reflexivity.
+Qed.
+
+Lemma concat_chunks_fuel {A} n : 1 <= n -> forall f (l : list A),
+  length l <= f -> concat (chunks_fuel f n l) = l.
+Proof.
+  intros Hn. induction f as [|f IH]; intros l Hl.
+  - destruct l; [reflexivity | cbn [length] in Hl; lia].
+  - destruct l as [|x l]; [reflexivity|].
+    rewrite chunks_fuel_S by discriminate. cbn [concat].
+    rewrite IH; [apply firstn_skipn|].
+    rewrite skipn_length. cbn [length] in *. lia.
+Qed.
+
+Lemma concat_chunks {A} n (l : list A) : 1 <= n -> concat (chunks n l) = l.
+Proof. intro Hn. apply concat_chunks_fuel; [exact Hn | apply le_n]. Qed.
+
+Lemma bytes_app a b : bytes (a ++ b) <-> bytes a /\ bytes b.
+Proof. unfold bytes. apply Forall_app. Qed.
+
+Lemma bytes_repeat x n : (x < 256)%N -> bytes (repeat x n).
+Proof. intro Hx. unfold bytes. induction n; cbn [repeat]; constructor; assumption. Qed.
+
+Lemma bytes_firstn n l : bytes l -> bytes (firstn n l).
+Proof.
+  unfold bytes. revert l. induction n as [|n IH]; intros l H; [constructor|].
+  destruct l as [|x l]; [constructor|]. inversion H; subst. cbn [firstn]. constructor; auto.
+Qed.
+
+Lemma bytes_skipn n l : bytes l -> bytes (skipn n l).
+Proof.
+  unfold bytes. revert l. induction n as [|n IH]; intros l H; [exact H|].
+  destruct l as [|x l]; [constructor|]. inversion H; subst. cbn [skipn]. auto.
+Qed.
+
+Lemma bytes_concat ls : Forall bytes ls -> bytes (concat ls).
+Proof.
+  induction 1 as [|x r Hx Hr IH]; cbn [concat]; [constructor|].
+  apply bytes_app. split; assumption.
+Qed.
+
+(* chunks 16 of an aligned byte string are well-formed blocks *)
+Lemma blocks16_chunks_fuel : forall f l, length l <= f -> length l mod 16 = 0 -> bytes l ->
+  blocks16 (chunks_fuel f 16 l).
+Proof.
+  induction f as [|f IH]; intros l Hf Hal Hb; [constructor|].
+  destruct l as [|x l]; [constructor|].
+  rewrite chunks_fuel_S by discriminate.
+  assert (H16 : 16 <= length (x :: l)).
+  { destruct (Nat.le_gt_cases 16 (length (x :: l))) as [H|H]; [exact H|].
+    rewrite Nat.mod_small in Hal by exact H. cbn [length] in Hal. discriminate. }
+  constructor.
+  - apply block16_iff. split; [apply firstn_length_le; exact H16 | apply bytes_firstn; exact Hb].
+  - apply IH.
+    + rewrite skipn_length. cbn [length] in *. lia.
+    + rewrite skipn_length.
+      replace (length (x :: l)) with ((length (x :: l) - 16) + 1 * 16) in Hal by lia.
+      rewrite Nat.mod_add in Hal by discriminate. exact Hal.
+    + apply bytes_skipn. exact Hb.
+Qed.
+
+Lemma blocks16_chunks l : length l mod 16 = 0 -> bytes l -> blocks16 (chunks 16 l).
+Proof. intros. apply blocks16_chunks_fuel; [apply le_n | assumption | assumption]. Qed.
+
+(* chunks 16 of a concatenation whose first part is aligned *)
+Lemma chunks16_app : forall (a b : list N), length a mod 16 = 0 ->
+  chunks 16 (a ++ b) = chunks 16 a ++ chunks 16 b.
+Proof.
+  intros a. remember (length a) as n eqn:Hn. revert a Hn.
+  induction n as [n IH] using lt_wf_ind. intros a Hn b Hal.
+  destruct a as [|x a'] eqn:Ea; [reflexivity|]. rewrite <- Ea in *.
+  assert (H16 : 16 <= length a).
+  { destruct (Nat.le_gt_cases 16 (length a)) as [H|H]; [exact H|].
+    rewrite <- Hn in H. rewrite Nat.mod_small in Hal by exact H. subst n a. discriminate. }
+  assert (H1 : length (firstn 16 a) = 16) by (apply firstn_length_le; exact H16).
+  assert (H2 : length (skipn 16 a) = n - 16) by (rewrite skipn_length; lia).
+  rewrite <- (firstn_skipn 16 a).
+  generalize dependent (firstn 16 a). generalize dependent (skipn 16 a). clear Ea.
+  intros a2 H2 a1 H1.
+  rewrite <- app_assoc.
+  rewrite (chunks_app_exact 16 a1 (a2 ++ b)) by (try exact H1; lia).
+  rewrite (chunks_app_exact 16 a1 a2) by (try exact H1; lia).
+  cbn [app]. f_equal.
+  apply (IH (n - 16)).
+  - lia.
+  - symmetry. exact H2.
+  - replace n with ((n - 16) + 1 * 16) in Hal by lia.
+    rewrite Nat.mod_add in Hal by discriminate. exact Hal.
+Qed.
+
+Lemma length_concat_blocks16 : forall bs, blocks16 bs -> length (concat bs) = 16 * length bs.
+Proof.
+  induction 1 as [|b r Hb Hr IH]; [reflexivity|].
+  cbn [concat length]. rewrite app_length, IH. destruct Hb as [Hb _]. lia.
+Qed.
+
+Lemma bytes_concat_blocks16 : forall bs, blocks16 bs -> bytes (concat bs).
+Proof.
+  intros bs H. apply bytes_concat. unfold blocks16 in H.
+  eapply Forall_impl; [|exact H]. intros b Hb. apply block16_iff in Hb. tauto.
+Qed.
+
+Lemma length_chunks16 l : length l mod 16 = 0 -> bytes l -> 16 * length (chunks 16 l) = length l.
+Proof.
+  intros Hal Hb. rewrite <- length_concat_blocks16 by (apply blocks16_chunks; assumption).
+  rewrite concat_chunks by lia. reflexivity.
+Qed.
+
+(* set_nth / nth *)
+Lemma set_nth_length {A} n (x : A) : forall l, length (FileModel.set_nth n x l) = length l.
+Proof.
+  induction n as [|n IH]; intros [|h t]; cbn [FileModel.set_nth length]; try reflexivity.
+  rewrite IH. reflexivity.
+Qed.
+
+Lemma nth_set_nth_eq {A} (d x : A) : forall n l, n < length l -> nth n (FileModel.set_nth n x l) d = x.
+Proof.
+  induction n as [|n IH]; intros [|h t] H; cbn [length] in H; try lia; cbn [FileModel.set_nth nth].
+  - reflexivity.
+  - apply IH. lia.
+Qed.
+
+Lemma nth_set_nth_neq {A} (d x : A) : forall n m l, n <> m ->
+  nth m (FileModel.set_nth n x l) d = nth m l d.
+Proof.
+  induction n as [|n IH]; intros m [|h t] H; cbn [FileModel.set_nth]; try reflexivity.
+  - destruct m; [congruence | reflexivity].
+  - destruct m; [reflexivity|]. cbn [nth]. apply IH. congruence.
+Qed.
+
+Lemma Forall_set_nth {A} (Q : A -> Prop) x : Q x -> forall n l, Forall Q l ->
+  Forall Q (FileModel.set_nth n x l).
+Proof.
+  intros Hx. induction n as [|n IH]; intros [|h t] H; cbn [FileModel.set_nth]; try constructor;
+    inversion H; subst; auto.
+Qed.
+
+(* ------------------------------------------------------------------------------------------ *)
+(* 1. the IV chain                                                                             *)
+(* ------------------------------------------------------------------------------------------ *)
+
+Lemma bytes_be32_bytes w : bytes (be32_bytes w).
+Proof.
+  unfold be32_bytes, bytes.
+  repeat (apply Forall_cons; [apply N.mod_lt; discriminate|]). apply Forall_nil.
+Qed.
+
+Lemma sha1m_bytes s : bytes (getStringHash alg_sha1 s).
+Proof.
+  unfold getStringHash. change (ha_out alg_sha1) with (flat_map be32_bytes).
+  generalize (hs_h (string_loop alg_sha1 (S (length s / 64)) (reset alg_sha1) s)) as l.
+  induction l as [|w l IH]; cbn [flat_map]; [constructor|].
+  apply bytes_app. split; [apply bytes_be32_bytes | exact IH].
+Qed.
+
+Lemma sha1m_length s : length (getStringHash alg_sha1 s) = 20.
+Proof. exact (proj1 (getStringHash_length 0%N alg_sha1 s eq_refl)). Qed.
+
+Lemma sha1m_spec s : (8 * N.of_nat (length s) < 2 ^ 64)%N -> getStringHash alg_sha1 s = sha1 s.
+Proof. intro H. exact (string_std 0%N alg_sha1 s eq_refl H). Qed.
+
+Lemma iv_chain_from_spec : forall n prev, (8 * N.of_nat (length prev) < 2 ^ 64)%N ->
+  iv_chain_from prev n = spec_iv_chain_from prev n.
+Proof.
+  induction n as [|n IH]; intros prev H; [reflexivity|].
+  cbn [iv_chain_from spec_iv_chain_from]. cbv zeta.
+  rewrite <- (sha1m_spec prev H). f_equal. apply IH.
+  rewrite sha1m_length. rewrite pow64. reflexivity.
+Qed.
+
+Lemma iv_chain_from_length : forall n prev, length (iv_chain_from prev n) = 20 * n.
+Proof.
+  induction n as [|n IH]; intros prev; [reflexivity|].
+  cbn [iv_chain_from]. cbv zeta. rewrite app_length, sha1m_length, IH. lia.
+Qed.
+
+Lemma iv_chain_from_bytes : forall n prev, bytes (iv_chain_from prev n).
+Proof.
+  induction n as [|n IH]; intros prev; [constructor|].
+  cbn [iv_chain_from]. cbv zeta. apply bytes_app. split; [apply sha1m_bytes | apply IH].
+Qed.
+
+Lemma iv_chain_S seed n : iv_chain seed (S n) = iv_chain_from seed (S n).
+Proof. reflexivity. Qed.
+
+Lemma iv_chain_spec seed T : 1 <= T -> (N.of_nat (length seed) < 2 ^ 56)%N ->
+  iv_chain seed T = spec_ivs seed T.
+Proof.
+  intros HT Hs. destruct T as [|n]; [lia|]. rewrite iv_chain_S. unfold spec_ivs.
+  apply iv_chain_from_spec. rewrite pow64.
+  change (2 ^ 56)%N with 72057594037927936%N in Hs. lia.
+Qed.
+
+Lemma iv_chain_length seed T : 1 <= T -> length (iv_chain seed T) = 20 * T.
+Proof. intros HT. destruct T as [|n]; [lia|]. rewrite iv_chain_S. apply iv_chain_from_length. Qed.
+
+Lemma iv_chain_bytes seed T : 1 <= T -> bytes (iv_chain seed T).
+Proof. intros HT. destruct T as [|n]; [lia|]. rewrite iv_chain_S. apply iv_chain_from_bytes. Qed.
+
+Lemma iv16_block seed T : 1 <= T -> block16 (firstn 16 (iv_chain seed T)).
+Proof.
+  intro HT. apply block16_iff. split.
+  - apply firstn_length_le. rewrite iv_chain_length by exact HT. lia.
+  - apply bytes_firstn, iv_chain_bytes, HT.
+Qed.
+
+(* ------------------------------------------------------------------------------------------ *)
+(* 2. the loads of the encryptor                                                               *)
+(* ------------------------------------------------------------------------------------------ *)
+
+(* the loads as a function of the chunks of the padded plaintext *)
+Fixpoint mkloads (c : nat) (chs : list (list N)) : list load :=
+  match chs with
+  | [] => []
+  | x :: r => match r with
+              | [] => [{| ld_data := x; ld_total := length x / 16; ld_final := true |}]
+              | _ :: _ => {| ld_data := x; ld_total := c; ld_final := false |} :: mkloads c r
+              end
+  end.
+
+(* shape of the chunk list: full chunks, then one last non-empty aligned chunk *)
+Inductive good_chs (c : nat) : list (list N) -> Prop :=
+| good_last x : 16 <= length x -> length x mod 16 = 0 -> length x <= 16 * c -> bytes x ->
+                good_chs c [x]
+| good_cons x r : length x = 16 * c -> bytes x -> good_chs c r -> good_chs c (x :: r).
+
+Lemma pkcs7_length P : length (pkcs7 P) = 16 * (length P / 16 + 1).
+Proof.
+  unfold pkcs7. cbv zeta. rewrite app_length, repeat_length.
+  pose proof (Nat.div_mod (length P) 16 ltac:(discriminate)) as H.
+  pose proof (Nat.mod_upper_bound (length P) 16 ltac:(discriminate)) as H'. lia.
+Qed.
+
+Lemma pkcs7_bytes P : bytes P -> bytes (pkcs7 P).
+Proof.
+  intro H. unfold pkcs7. cbv zeta. apply bytes_app. split; [exact H|].
+  apply bytes_repeat.
+  pose proof (Nat.mod_upper_bound (length P) 16 ltac:(discriminate)) as H'.
+  change 256%N with (N.of_nat 256). lia.
+Qed.
+
+Lemma pkcs7_split n P : n mod 16 = 0 -> n <= length P ->
+  pkcs7 P = firstn n P ++ pkcs7 (skipn n P).
+Proof.
+  intros Hn Hle. unfold pkcs7. cbv zeta. rewrite skipn_length.
+  assert (Hm : (length P - n) mod 16 = length P mod 16).
+  { apply Nat.div_exact in Hn; [|discriminate].
+    replace (length P) with ((length P - n) + (n / 16) * 16) at 2 by lia.
+    rewrite Nat.mod_add by discriminate. reflexivity. }
+  rewrite Hm. rewrite app_assoc. rewrite firstn_skipn. reflexivity.
+Qed.
+
+Section Loads.
+Variable c : nat.
+Hypothesis Hc : 1 <= c.
+
+Lemma load_enc_full rest : 16 * c <= length rest ->
+  load_enc c rest = ({| ld_data := firstn (16 * c) rest; ld_total := c; ld_final := false |},
+                     skipn (16 * c) rest).
+Proof.
+  intro H. unfold load_enc, sum. cbv zeta.
+  rewrite firstn_length_le by exact H. rewrite Nat.eqb_refl. reflexivity.
+Qed.
+
+Lemma load_enc_last rest : length rest < 16 * c ->
+  load_enc c rest =
+  ({| ld_data := rest ++ repeat (N.of_nat (16 - length rest mod 16)) (16 - length rest mod 16);
+      ld_total := S (length rest / 16); ld_final := true |}, []).
+Proof.
+  intro H. unfold load_enc, sum. cbv zeta.
+  rewrite firstn_all2 by lia.
+  destruct (Nat.eqb_spec (length rest) (16 * c)) as [Heq|_]; [lia|]. reflexivity.
+Qed.
+
+Lemma loads_enc_chunks : forall fuel P, length P / (16 * c) < fuel -> bytes P ->
+  loads (load_enc c) fuel P = mkloads c (chunks (16 * c) (pkcs7 P)) /\
+  good_chs c (chunks (16 * c) (pkcs7 P)).
+Proof.
+  induction fuel as [|fuel IH]; intros P Hf HP; [lia|].
+  cbn [loads].
+  destruct (Nat.le_gt_cases (16 * c) (length P)) as [Hge|Hlt].
+  - (* a full load *)
+    rewrite load_enc_full by exact Hge. cbn [ld_final].
+    assert (Hdiv : length (skipn (16 * c) P) / (16 * c) < fuel).
+    { rewrite skipn_length.
+      replace (length P) with ((length P - 16 * c) + 1 * (16 * c)) in Hf by lia.
+      rewrite Nat.div_add in Hf by lia. lia. }
+    destruct (IH (skipn (16 * c) P) Hdiv (bytes_skipn _ _ HP)) as [IH1 IH2].
+    rewrite (pkcs7_split (16 * c) P) by
+      (try exact Hge; rewrite Nat.mul_comm; apply Nat.mod_mul; discriminate).
+    rewrite chunks_app_exact by (try (apply firstn_length_le; exact Hge); lia).
+    split.
+    + rewrite IH1. cbn [mkloads].
+      destruct (chunks (16 * c) (pkcs7 (skipn (16 * c) P))) as [|y r] eqn:E; [inversion IH2|].
+      reflexivity.
+    + apply good_cons; [apply firstn_length_le; exact Hge | apply bytes_firstn; exact HP | exact IH2].
+  - (* the last, short load *)
+    rewrite load_enc_last by exact Hlt. cbn [ld_final].
+    assert (Hlen : length (pkcs7 P) = 16 * (length P / 16 + 1)) by apply pkcs7_length.
+    assert (Hq : length P / 16 < c) by (apply Nat.div_lt_upper_bound; lia).
+    rewrite chunks_small; [| | lia].
+    2:{ intro E. rewrite E in Hlen. cbn [length] in Hlen. lia. }
+    split.
+    + cbn [mkloads]. f_equal. rewrite Hlen.
+      rewrite (Nat.mul_comm 16), Nat.div_mul by discriminate.
+      rewrite Nat.add_1_r. reflexivity.
+    + apply good_last; try lia.
+      * rewrite Hlen, Nat.mul_comm. apply Nat.mod_mul. discriminate.
+      * apply pkcs7_bytes. exact HP.
+Qed.
+
+Lemma loads_of_enc P : bytes P ->
+  loads_of c true P = mkloads c (chunks (16 * c) (pkcs7 P)) /\
+  good_chs c (chunks (16 * c) (pkcs7 P)).
+Proof. intro HP. unfold loads_of, sum. apply loads_enc_chunks; [lia | exact HP]. Qed.
+End Loads.
+
+(* ------------------------------------------------------------------------------------------ *)
+(* 3. the pipeline over the loads                                                              *)
+(* ------------------------------------------------------------------------------------------ *)
+
+Definition okb (x : list N) : Prop := length x mod 16 = 0 /\ bytes x.
+
+Lemma okb_nil : okb [].
+Proof. split; [reflexivity | constructor]. Qed.
+
+Lemma okb_app a b : okb a -> okb b -> okb (a ++ b).
+Proof.
+  intros [Ha1 Ha2] [Hb1 Hb2]. split; [|apply bytes_app; split; assumption].
+  rewrite app_length, Nat.add_mod, Ha1, Hb1 by discriminate. reflexivity.
+Qed.
+
+Lemma good_chs_okb c chs : good_chs c chs -> Forall okb chs.
+Proof.
+  induction 1 as [x H1 H2 H3 H4 | x r H1 H2 H3 IH].
+  - constructor; [split; assumption | constructor].
+  - constructor; [|exact IH]. split; [|exact H2].
+    rewrite H1, Nat.mul_comm. apply Nat.mod_mul. discriminate.
+Qed.
+
+Lemma good_chs_prefix c : forall pre x r, good_chs c (pre ++ x :: r) ->
+  r <> [] -> Forall (fun y => length y = 16 * c) (pre ++ [x]).
+Proof.
+  induction pre as [|p pre IH]; intros x r H Hr; cbn [app] in *.
+  - inversion H; subst; [congruence|]. constructor; [assumption | constructor].
+  - inversion H as [y A1 A2 A3 A4 E | y r' A1 A2 A3 E]; subst.
+    + destruct pre; discriminate.
+    + constructor; [exact A1|]. apply (IH x r A3 Hr).
+Qed.
+
+Lemma good_chs_pre c : forall pre x r, good_chs c (pre ++ x :: r) ->
+  Forall (fun y => length y = 16 * c) pre.
+Proof.
+  induction pre as [|p pre IH]; intros x r H; cbn [app] in *; [constructor|].
+  inversion H as [y A1 A2 A3 A4 E | y r' A1 A2 A3 E]; subst.
+  - destruct pre; discriminate.
+  - constructor; [exact A1|]. apply (IH x r A3).
+Qed.
+
+Lemma mkloads_cons c x r : r <> [] ->
+  mkloads c (x :: r) = {| ld_data := x; ld_total := c; ld_final := false |} :: mkloads c r.
+Proof. destruct r; [congruence | reflexivity]. Qed.
+
+Lemma snd_run_app E D k iv a b :
+  snd (run E D k iv (a ++ b)) = snd (run E D k iv a) ++ snd (run E D k (fst (run E D k iv a)) b).
+Proof. rewrite C10_stream_is_continuous_proof. reflexivity. Qed.
+
+Lemma fst_run_app E D k iv a b :
+  fst (run E D k iv (a ++ b)) = fst (run E D k (fst (run E D k iv a)) b).
+Proof. rewrite C10_stream_is_continuous_proof. reflexivity. Qed.
+
+Lemma succ_divmod T n : 0 < T ->
+  (S (n mod T) < T /\ S n mod T = S (n mod T) /\ S n / T = n / T) \/
+  (S (n mod T) = T /\ S n mod T = 0 /\ S n / T = S (n / T)).
+Proof.
+  intros HT.
+  pose proof (Nat.div_mod n T ltac:(lia)) as H.
+  pose proof (Nat.mod_upper_bound n T ltac:(lia)) as H'.
+  destruct (Nat.lt_ge_cases (S (n mod T)) T) as [Hlt|Hge].
+  - left. split; [exact Hlt|].
+    assert (H1 : S n = T * (n / T) + S (n mod T)) by lia.
+    split; [symmetry; apply Nat.mod_unique with (q := n / T); assumption
+           | symmetry; apply Nat.div_unique with (r := S (n mod T)); assumption].
+  - right. assert (H0 : S (n mod T) = T) by lia. split; [exact H0|].
+    assert (H1 : S n = T * S (n / T) + 0) by lia.
+    split; [symmetry; apply Nat.mod_unique with (q := S (n / T)); [lia | exact H1]
+           | symmetry; apply Nat.div_unique with (r := 0); [lia | exact H1]].
+Qed.
+
+Lemma nth_repeat_lt {A} (a d : A) : forall n i, i < n -> nth i (repeat a n) d = a.
+Proof.
+  induction n as [|n IH]; intros i H; [lia|]. destruct i; cbn [repeat nth]; [reflexivity|].
+  apply IH. lia.
+Qed.
+
+Lemma nth_map_seq {A} (f : nat -> A) d : forall n i, i < n -> nth i (map f (seq 0 n)) d = f i.
+Proof.
+  intros n i H. rewrite (nth_indep _ d (f 0)) by (rewrite map_length, seq_length; exact H).
+  rewrite map_nth, seq_nth by exact H. reflexivity.
+Qed.
+
+Section StreamInput.
+Variable T : nat.
+
+Lemma stream_input_nil i : stream_input T [] i = [].
+Proof. reflexivity. Qed.
+
+Lemma stream_input_snoc pre x i :
+  stream_input T (pre ++ [x]) i =
+  stream_input T pre i ++ (if length pre mod T =? i then x else []).
+Proof.
+  unfold stream_input. rewrite app_length. cbn [length]. rewrite Nat.add_1_r, seq_S, map_app, concat_app.
+  cbn [map concat plus]. rewrite app_nil_r. f_equal.
+  - f_equal. apply map_ext_in. intros j Hj. apply in_seq in Hj.
+    rewrite app_nth1 by lia. reflexivity.
+  - rewrite nth_middle. reflexivity.
+Qed.
+
+Lemma stream_input_app_ex i : forall rest pre, Forall okb rest ->
+  exists Z, stream_input T (pre ++ rest) i = stream_input T pre i ++ Z /\ okb Z.
+Proof.
+  induction rest as [|y rest IH] using rev_ind; intros pre H.
+  - exists []. rewrite !app_nil_r. split; [reflexivity | apply okb_nil].
+  - apply Forall_app in H. destruct H as [Hr Hy]. inversion Hy as [|? ? Hy' _]; subst.
+    destruct (IH pre Hr) as [Z [EZ HZ]].
+    rewrite app_assoc, stream_input_snoc, EZ, <- app_assoc.
+    eexists. split; [reflexivity|].
+    apply okb_app; [exact HZ|]. destruct (_ =? _); [exact Hy' | apply okb_nil].
+Qed.
+
+Lemma stream_input_okb i chs : Forall okb chs -> okb (stream_input T chs i).
+Proof.
+  intro H. destruct (stream_input_app_ex i chs [] H) as [Z [EZ HZ]].
+  cbn [app] in EZ. rewrite EZ, stream_input_nil. exact HZ.
+Qed.
+
+Lemma stream_input_length L i : 1 <= T -> i < T -> forall pre, Forall (fun y => length y = L) pre ->
+  length (stream_input T pre i) =
+  L * (length pre / T + (if i <? length pre mod T then 1 else 0)).
+Proof.
+  intros HT Hi. induction pre as [|x pre IH] using rev_ind; intros H.
+  - rewrite stream_input_nil. cbn [length]. rewrite Nat.div_0_l, Nat.mod_0_l by lia.
+    cbn [Nat.ltb Nat.leb]. lia.
+  - apply Forall_app in H. destruct H as [Hp Hx]. inversion Hx as [|? ? Hx' _]; subst.
+    rewrite stream_input_snoc, !app_length, (IH Hp). cbn [length]. rewrite Nat.add_1_r.
+    set (n := length pre).
+    destruct (succ_divmod T n ltac:(lia)) as [[S1 [S2 S3]] | [S1 [S2 S3]]]; rewrite S2, S3.
+    + destruct (Nat.eqb_spec (n mod T) i) as [Ei|Ei].
+      * destruct (Nat.ltb_spec i (n mod T)); [lia|].
+        destruct (Nat.ltb_spec i (S (n mod T))); [|lia]. lia.
+      * cbn [length].
+        destruct (Nat.ltb_spec i (n mod T)); destruct (Nat.ltb_spec i (S (n mod T))); lia.
+    + destruct (Nat.eqb_spec (n mod T) i) as [Ei|Ei].
+      * destruct (Nat.ltb_spec i (n mod T)); [lia|]. cbn [Nat.ltb Nat.leb]. lia.
+      * cbn [length]. destruct (Nat.ltb_spec i (n mod T)); [|lia]. cbn [Nat.ltb Nat.leb]. lia.
+Qed.
+
+End StreamInput.
+
+Section Pipe.
+Variables E D : list N -> list N.
+Hypothesis E_block : forall b, block16 b -> block16 (E b).
+Hypothesis D_block : forall b, block16 b -> block16 (D b).
+Variable kind : mkind.
+Variables T c : nat.
+Hypothesis HT : 1 <= T.
+Hypothesis Hc : 1 <= c.
+
+Lemma runcry_block16 iv b : block16 iv -> block16 b ->
+  block16 (fst (runcry E D kind iv b)) /\ block16 (snd (runcry E D kind iv b)).
+Proof.
+  intros Hiv Hb. destruct kind; cbn [runcry fst snd]; split;
+    auto using block16_xorl, block16_ctrInc.
+Qed.
+
+Lemma run_block16 : forall bs iv, block16 iv -> blocks16 bs ->
+  block16 (fst (run E D kind iv bs)) /\ blocks16 (snd (run E D kind iv bs)) /\
+  length (snd (run E D kind iv bs)) = length bs.
+Proof.
+  induction bs as [|b r IH]; intros iv Hiv Hbs.
+  - cbn [run fst snd]. split; [exact Hiv | split; [constructor | reflexivity]].
+  - apply blocks16_cons in Hbs. destruct Hbs as [Hb Hr].
+    destruct (runcry_block16 iv b Hiv Hb) as [H1 H2].
+    destruct (IH _ H1 Hr) as [I1 [I2 I3]].
+    rewrite fst_run_cons, snd_run_cons. split; [|split].
+    + exact I1.
+    + constructor; assumption.
+    + cbn [length]. rewrite I3. reflexivity.
+Qed.
+
+(* output of one chunk: as long as the input *)
+Lemma run_chunk iv x : block16 iv -> okb x ->
+  block16 (fst (run E D kind iv (chunks 16 x))) /\
+  length (concat (snd (run E D kind iv (chunks 16 x)))) = length x /\
+  bytes (concat (snd (run E D kind iv (chunks 16 x)))).
+Proof.
+  intros Hiv [Hx1 Hx2].
+  destruct (run_block16 (chunks 16 x) iv Hiv (blocks16_chunks x Hx1 Hx2)) as [H1 [H2 H3]].
+  split; [exact H1|]. split.
+  - rewrite length_concat_blocks16 by exact H2. rewrite H3. apply length_chunks16; assumption.
+  - apply bytes_concat_blocks16. exact H2.
+Qed.
+
+(* the pipeline as a plain function of the chunk list *)
+Fixpoint pc (ivs : list (list N)) (j : nat) (chs : list (list N)) : list N :=
+  match chs with
+  | [] => []
+  | x :: r =>
+      let ro := run E D kind (nth (j mod T) ivs []) (chunks 16 x) in
+      concat (snd ro) ++ pc (FileModel.set_nth (j mod T) (fst ro) ivs) (S j) r
+  end.
+
+Lemma pipe_chunks_cons ivs j l r :
+  pipe_chunks E D kind T c true ivs j (l :: r) =
+  if ld_final l && (ld_total l =? 0) then Hang
+  else let ro := run E D kind (nth (j mod T) ivs []) (blocks16_of (ld_data l)) in
+       match export c true l (concat (snd ro)) with
+       | Ok bytes => match pipe_chunks E D kind T c true (FileModel.set_nth (j mod T) (fst ro) ivs) (S j) r with
+                     | Ok rest => Ok (bytes ++ rest)
+                     | e => e
+                     end
+       | e => e
+       end.
+Proof.
+  cbn [pipe_chunks]. cbv zeta.
+  destruct (run E D kind (nth (j mod T) ivs []) (blocks16_of (ld_data l))) as [iv' out].
+  reflexivity.
+Qed.
+
+Lemma nth_block16 ivs i : Forall block16 ivs -> i < length ivs -> block16 (nth i ivs []).
+Proof. intros H Hi. rewrite Forall_forall in H. apply H, nth_In, Hi. Qed.
+
+Lemma pipe_mkloads : forall chs, good_chs c chs -> forall ivs j,
+  length ivs = T -> Forall block16 ivs ->
+  pipe_chunks E D kind T c true ivs j (mkloads c chs) = Ok (pc ivs j chs) /\
+  length (pc ivs j chs) = length (concat chs) /\ bytes (pc ivs j chs).
+Proof.
+  induction 1 as [x H1 H2 H3 H4 | x r H1 H2 H3 IH]; intros ivs j Hl Hivs.
+  - (* the last chunk *)
+    assert (Hi : j mod T < length ivs) by (rewrite Hl; apply Nat.mod_upper_bound; lia).
+    destruct (run_chunk (nth (j mod T) ivs []) x (nth_block16 _ _ Hivs Hi) (conj H2 H4))
+      as [R1 [R2 R3]].
+    cbn [mkloads pc concat]. rewrite pipe_chunks_cons. cbn [ld_final ld_total ld_data].
+    assert (Hq : length x = 16 * (length x / 16)).
+    { apply Nat.div_exact in H2; [exact H2 | discriminate]. }
+    destruct (Nat.eqb_spec (length x / 16) 0) as [E0|_]; [lia|].
+    cbn [andb]. cbv zeta. unfold export, blocks16_of. cbn [ld_final ld_total].
+    rewrite <- Hq. rewrite firstn_all2 by lia.
+    cbn [pipe_chunks]. rewrite !app_nil_r. split; [reflexivity | split; assumption].
+  - (* a full chunk followed by more *)
+    assert (Hi : j mod T < length ivs) by (rewrite Hl; apply Nat.mod_upper_bound; lia).
+    assert (Hx : okb x).
+    { split; [|exact H2]. rewrite H1, Nat.mul_comm. apply Nat.mod_mul. discriminate. }
+    destruct (run_chunk (nth (j mod T) ivs []) x (nth_block16 _ _ Hivs Hi) Hx) as [R1 [R2 R3]].
+    rewrite mkloads_cons by (inversion H3; discriminate).
+    rewrite pipe_chunks_cons. cbn [ld_final ld_total ld_data andb]. cbv zeta.
+    unfold export, blocks16_of, sum. cbn [ld_final].
+    rewrite firstn_all2 by lia.
+    destruct (IH (FileModel.set_nth (j mod T) (fst (run E D kind (nth (j mod T) ivs []) (chunks 16 x))) ivs)
+                 (S j)) as [I1 [I2 I3]].
+    { rewrite set_nth_length. exact Hl. }
+    { apply Forall_set_nth; assumption. }
+    rewrite I1. cbn [pc concat]. cbv zeta. split; [reflexivity | split].
+    + rewrite !app_length, R2, I2. reflexivity.
+    + apply bytes_app. split; assumption.
+Qed.
+
+(* ------------------------------------------------------------------------------------------ *)
+(* 4. striping                                                                                 *)
+(* ------------------------------------------------------------------------------------------ *)
+
+Section Stripe.
+Variable iv16 : list N.
+Hypothesis Hiv16 : block16 iv16.
+
+Definition sout (chs : list (list N)) (i : nat) : list N :=
+  concat (snd (run E D kind iv16 (chunks 16 (stream_input T chs i)))).
+Definition reg (pre : list (list N)) (i : nat) : list N :=
+  fst (run E D kind iv16 (chunks 16 (stream_input T pre i))).
+
+Lemma reg_block16 pre i : Forall okb pre -> block16 (reg pre i).
+Proof.
+  intro H. destruct (stream_input_okb T i pre H) as [H1 H2].
+  unfold reg. apply run_block16; [exact Hiv16 | apply blocks16_chunks; assumption].
+Qed.
+
+Lemma stripe_gen chs : good_chs c chs -> forall rest pre ivs,
+  chs = pre ++ rest -> length ivs = T ->
+  (forall i, i < T -> nth i ivs [] = reg pre i) ->
+  pc ivs (length pre) rest =
+  concat (map (fun j => firstn (length (nth j chs []))
+                               (skipn (16 * c * (j / T)) (sout chs (j mod T))))
+              (seq (length pre) (length rest))).
+Proof.
+  intros Hgood. pose proof (good_chs_okb c chs Hgood) as Hok.
+  induction rest as [|x r IH]; intros pre ivs Hchs Hl Hivs; [reflexivity|].
+  set (j := length pre). set (i := j mod T).
+  assert (Hi : i < T) by (apply Nat.mod_upper_bound; lia).
+  assert (Hok' : Forall okb pre /\ okb x /\ Forall okb r).
+  { rewrite Hchs in Hok. apply Forall_app in Hok. destruct Hok as [A B].
+    inversion B; subst. auto. }
+  destruct Hok' as [Hokp [Hokx Hokr]].
+  assert (Hpre : Forall (fun y => length y = 16 * c) pre).
+  { rewrite Hchs in Hgood. exact (good_chs_pre c pre x r Hgood). }
+  pose proof (stream_input_okb T i pre Hokp) as [HA1 HA2].
+  pose proof (reg_block16 pre i Hokp) as Hreg.
+  destruct (run_chunk (reg pre i) x Hreg Hokx) as [R1 [R2 R3]].
+  cbn [pc length seq map concat]. cbv zeta. fold j. fold i. rewrite (Hivs i Hi). f_equal.
+  - (* the piece of chunk j *)
+    assert (Enth : nth j chs [] = x) by (rewrite Hchs; apply nth_middle).
+    rewrite Enth.
+    assert (Hchs' : chs = (pre ++ [x]) ++ r) by (rewrite <- app_assoc; exact Hchs).
+    destruct (stream_input_app_ex T i r (pre ++ [x]) Hokr) as [Z [EZ [HZ1 HZ2]]].
+    unfold sout. rewrite Hchs', EZ, stream_input_snoc. fold j. fold i. rewrite Nat.eqb_refl.
+    destruct Hokx as [Hx1 Hx2].
+    rewrite chunks16_app by (apply okb_app; split; assumption).
+    rewrite chunks16_app by exact HA1.
+    rewrite snd_run_app, snd_run_app. fold (reg pre i).
+    rewrite !concat_app, <- app_assoc.
+    rewrite skipn_app_exact.
+    + rewrite firstn_app_exact by exact R2. reflexivity.
+    + destruct (run_block16 (chunks 16 (stream_input T pre i)) iv16 Hiv16
+                  (blocks16_chunks _ HA1 HA2)) as [_ [B2 B3]].
+      rewrite length_concat_blocks16 by exact B2. rewrite B3.
+      rewrite length_chunks16 by assumption.
+      rewrite (stream_input_length T (16 * c) i HT Hi pre Hpre). fold j. fold i.
+      rewrite Nat.ltb_irrefl. rewrite Nat.add_0_r. reflexivity.
+  - (* the remaining chunks *)
+    specialize (IH (pre ++ [x])
+                   (FileModel.set_nth i (fst (run E D kind (reg pre i) (chunks 16 x))) ivs)).
+    rewrite app_length in IH. cbn [length] in IH. rewrite Nat.add_1_r in IH. fold j in IH.
+    apply IH.
+    + rewrite <- app_assoc. exact Hchs.
+    + rewrite set_nth_length. exact Hl.
+    + intros i' Hi'. unfold reg at 2. rewrite stream_input_snoc. fold j. fold i.
+      destruct (Nat.eqb_spec i i') as [<-|Hne].
+      * rewrite nth_set_nth_eq by (rewrite Hl; exact Hi).
+        rewrite chunks16_app by exact HA1. rewrite fst_run_app. reflexivity.
+      * rewrite nth_set_nth_neq by exact Hne. rewrite app_nil_r. apply Hivs. exact Hi'.
+Qed.
+
+Lemma stripe chs : good_chs c chs ->
+  pc (repeat iv16 T) 0 chs =
+  concat (map (fun j => firstn (length (nth j chs []))
+                               (skipn (16 * c * (j / T)) (sout chs (j mod T))))
+              (seq 0 (length chs))).
+Proof.
+  intro H. apply (stripe_gen chs H chs [] (repeat iv16 T)).
+  - reflexivity.
+  - apply repeat_length.
+  - intros i Hi. rewrite nth_repeat_lt by exact Hi. reflexivity.
+Qed.
+End Stripe.
+End Pipe.
+
+(* ------------------------------------------------------------------------------------------ *)
+(* 5. specification side, header, tag, layout                                                  *)
+(* ------------------------------------------------------------------------------------------ *)
+
+Lemma aes_enc_block k b : block16 k -> block16 b -> block16 (aes_enc k b).
+Proof. intros Hk Hb. exact (proj1 (C09_outputs_are_blocks_proof k b Hk Hb)). Qed.
+Lemma aes_dec_block k b : block16 k -> block16 b -> block16 (aes_dec k b).
+Proof. intros Hk Hb. exact (proj2 (C09_outputs_are_blocks_proof k b Hk Hb)). Qed.
+
+Lemma stream_output_run T key cm iv16 kind chs i :
+  (cm <= 4)%N -> block16 key -> block16 iv16 -> create true cm = Some kind -> Forall okb chs ->
+  stream_output T key cm iv16 chs i = Some (sout (aes_enc key) (aes_dec key) kind T iv16 chs i).
+Proof.
+  intros Hcm Hk Hiv Hkind Hok.
+  destruct (stream_input_okb T i chs Hok) as [H1 H2].
+  destruct (C10_encryptors_are_sp80038a_proof cm key iv16 (chunks 16 (stream_input T chs i))
+              Hcm Hk Hiv (blocks16_chunks _ H1 H2)) as [kind' [Hk' Hrun]].
+  rewrite Hkind in Hk'. injection Hk' as <-.
+  unfold stream_output, sout. rewrite <- Hrun. reflexivity.
+Qed.
+
+Lemma spec_body_pc c T key cm iv16 kind padded :
+  1 <= T -> 1 <= c -> (cm <= 4)%N -> block16 key -> block16 iv16 -> create true cm = Some kind ->
+  good_chs c (chunks (16 * c) padded) ->
+  spec_body c T key cm iv16 padded =
+  Some (pc (aes_enc key) (aes_dec key) kind T (repeat iv16 T) 0 (chunks (16 * c) padded)).
+Proof.
+  intros HT Hc Hcm Hk Hiv Hkind Hgood. unfold spec_body. cbv zeta.
+  set (chs := chunks (16 * c) padded) in *.
+  assert (Hok : Forall okb chs) by (apply (good_chs_okb c); exact Hgood).
+  rewrite (map_ext (stream_output T key cm iv16 chs)
+                   (fun i => Some (sout (aes_enc key) (aes_dec key) kind T iv16 chs i)))
+    by (intro i; apply stream_output_run; assumption).
+  set (outs := map _ (seq 0 T)).
+  assert (Hall : forallb (fun o : option (list N) => match o with Some _ => true | None => false end) outs = true).
+  { apply forallb_forall. intros o Ho. unfold outs in Ho. apply in_map_iff in Ho.
+    destruct Ho as [i [<- _]]. reflexivity. }
+  rewrite Hall. f_equal.
+  rewrite (stripe (aes_enc key) (aes_dec key) (fun b => aes_enc_block key b Hk)
+             (fun b => aes_dec_block key b Hk) kind T c HT Hc iv16 Hiv chs Hgood).
+  f_equal. apply map_ext. intro j. unfold outs.
+  rewrite nth_map_seq by (apply Nat.mod_upper_bound; lia). reflexivity.
+Qed.
+
+Lemma magic_eq : magic_bytes = spec_magic.
+Proof. vm_compute. reflexivity. Qed.
+
+Lemma zeros_split a b : a <= b -> zeros b = zeros a ++ zeros (b - a).
+Proof. intro H. unfold zeros. rewrite <- repeat_app. f_equal. lia. Qed.
+
+Lemma hlen_le hm : hlen hm <= 38.
+Proof. unfold hlen. destruct hm as [|[p|p|]]; lia. Qed.
+
+Lemma patch_nil_0 w : patch [] 0 w = w.
+Proof.
+  unfold patch. cbn [length Nat.sub zeros repeat app firstn Nat.add].
+  rewrite skipn_nil, app_nil_r. reflexivity.
+Qed.
+
+Lemma patch_mid a old rest w off : off = length a -> length old = length w ->
+  patch (a ++ old ++ rest) off w = a ++ w ++ rest.
+Proof.
+  intros -> Hl. unfold patch.
+  replace (length a - length (a ++ old ++ rest)) with 0 by (rewrite app_length; lia).
+  cbn [zeros repeat]. rewrite app_nil_r.
+  rewrite firstn_app_exact by reflexivity.
+  rewrite (app_assoc a old rest).
+  rewrite skipn_app_exact by (rewrite app_length; lia). reflexivity.
+Qed.
+
+(* arithmetic of the final layout, on abstract pieces *)
+Section Layout.
+Variables A tag Zr ivs body : list N.
+Variable h : nat.
+Hypothesis HA : length A = 10.
+Hypothesis Htag : length tag = h.
+Hypothesis HZr : length Zr = 38 - h.
+Hypothesis Hh : h <= 38.
+Let F := A ++ tag ++ Zr ++ ivs ++ body.
+
+Lemma layout_tag : firstn h (skipn 10 F) = tag.
+Proof. unfold F. rewrite skipn_app_exact by exact HA. apply firstn_app_exact. exact Htag. Qed.
+
+Lemma layout_auth : skipn 48 F = ivs ++ body.
+Proof.
+  unfold F. rewrite (app_assoc tag), (app_assoc A).
+  apply skipn_app_exact. rewrite !app_length. lia.
+Qed.
+
+Lemma layout_zero : skipn (10 + h) (firstn 48 F) = Zr.
+Proof.
+  unfold F. rewrite (app_assoc tag), (app_assoc A).
+  rewrite firstn_app_exact by (rewrite !app_length; lia).
+  rewrite (app_assoc A). apply skipn_app_exact. rewrite app_length. lia.
+Qed.
+
+Lemma layout_length : length F = 48 + length ivs + length body.
+Proof. unfold F. rewrite !app_length. lia. Qed.
+End Layout.
+
+(* the explicit description of everything encryption computes *)
+Lemma enc_explicit : forall c hbuf T P key seed cm hm,
+  enc_params c hbuf T P key seed cm hm ->
+  exists ivs body tag,
+    ivs = spec_ivs seed T /\ length ivs = 20 * T /\
+    spec_body c T key cm (firstn 16 ivs) (pkcs7 P) = Some body /\
+    length body = 16 * (length P / 16 + 1) /\
+    tag = hmac_spec (hash_spec hm) key (ivs ++ body) /\ length tag = hlen hm /\
+    enc_writes c hbuf T P key cm hm seed =
+      Ok [(0, (spec_magic ++ [cm; hm]) ++ zeros (hlen hm) ++ zeros (38 - hlen hm) ++ ivs ++ body);
+          (10, tag)].
+Proof.
+  intros c hbuf T P key seed cm hm [Hc Hhbuf HT HP Hkey Hseed Hcm Hhm HsP HsT HsS].
+  apply bytesb_bytes in HP.
+  set (ivs := iv_chain seed T).
+  assert (Eivs : ivs = spec_ivs seed T) by (apply iv_chain_spec; assumption).
+  assert (Livs : length ivs = 20 * T) by (apply iv_chain_length; exact HT).
+  assert (Bivs : bytes ivs) by (apply iv_chain_bytes; exact HT).
+  assert (Hiv16 : block16 (firstn 16 ivs)) by (apply iv16_block; exact HT).
+  destruct (C10_encryptors_are_sp80038a_proof cm key (firstn 16 ivs) [] Hcm Hkey Hiv16
+              (Forall_nil _)) as [kind [Hkind _]].
+  destruct (loads_of_enc c Hc P HP) as [L1 L2].
+  set (chs := chunks (16 * c) (pkcs7 P)) in *.
+  assert (Hregs : Forall block16 (repeat (firstn 16 ivs) T)).
+  { apply Forall_forall. intros x Hx. apply repeat_spec in Hx. rewrite Hx. exact Hiv16. }
+  destruct (pipe_mkloads (aes_enc key) (aes_dec key) (fun b => aes_enc_block key b Hkey)
+              (fun b => aes_dec_block key b Hkey) kind T c HT Hc chs L2
+              (repeat (firstn 16 ivs) T) 0 (repeat_length _ _) Hregs)
+    as [Q1 [Q2 Q3]].
+  set (body := pc (aes_enc key) (aes_dec key) kind T (repeat (firstn 16 ivs) T) 0 chs) in *.
+  assert (Lbody : length body = 16 * (length P / 16 + 1)).
+  { rewrite Q2. unfold chs. rewrite concat_chunks by lia. apply pkcs7_length. }
+  assert (Hmsg : bytesb (ivs ++ body) = true).
+  { apply bytesb_bytes, bytes_app. split; assumption. }
+  assert (Hsz : (8 * N.of_nat (128 + length (ivs ++ body)) < 2 ^ 64)%N).
+  { rewrite app_length, Livs, Lbody, pow64.
+    change (2 ^ 56)%N with 72057594037927936%N in HsP.
+    pose proof (Nat.mul_div_le (length P) 16 ltac:(discriminate)) as Hd. lia. }
+  pose proof (C08_tag_is_rfc2104_hmac_proof hbuf hm key (ivs ++ body) Hhbuf Hhm Hkey Hmsg Hsz) as Htag.
+  exists ivs, body, (hmac_spec (hash_spec hm) key (ivs ++ body)).
+  split; [exact Eivs|]. split; [exact Livs|].
+  split; [apply spec_body_pc; assumption|].
+  split; [exact Lbody|]. split; [reflexivity|].
+  split; [exact (C08_tag_length_proof hbuf hm key (ivs ++ body) _ Htag)|].
+  unfold enc_writes. cbv zeta. fold ivs. rewrite Hkind.
+  unfold pipe_seq. rewrite L1.
+  change (aes_enc_with (genall key)) with (aes_enc key).
+  change (aes_dec_with (genall key)) with (aes_dec key).
+  rewrite Q1.
+  assert (Ehdr : file_header cm hm ivs T ++ body =
+                 (spec_magic ++ [cm; hm] ++ zeros 38) ++ ivs ++ body).
+  { unfold file_header. rewrite magic_eq. change (N.to_nat Layout.PADDING) with 38.
+    rewrite firstn_all2 by lia. rewrite <- !app_assoc. reflexivity. }
+  rewrite Ehdr. change iv_mark with 48. change hmac_mark with 10.
+  rewrite (skipn_app_exact (spec_magic ++ [cm; hm] ++ zeros 38)) by reflexivity.
+  rewrite Htag.
+  rewrite (zeros_split (hlen hm) 38 (hlen_le hm)).
+  rewrite <- !app_assoc. reflexivity.
+Qed.
+
+(* ------------------------------------------------------------------------------------------ *)
+(* 6. the required lemmas                                                                      *)
+(* ------------------------------------------------------------------------------------------ *)
+
+Lemma Ok_inj {A} (a b : A) : Ok a = Ok b -> a = b.
+Proof. intro H. injection H as H. exact H. Qed.
+
+Lemma enc_file_explicit : forall c hbuf T P key seed cm hm,
+  enc_params c hbuf T P key seed cm hm ->
+  exists ivs body tag,
+    ivs = spec_ivs seed T /\ length ivs = 20 * T /\
+    spec_body c T key cm (firstn 16 ivs) (pkcs7 P) = Some body /\
+    length body = 16 * (length P / 16 + 1) /\
+    tag = hmac_spec (hash_spec hm) key (ivs ++ body) /\ length tag = hlen hm /\
+    enc c hbuf T P key cm hm seed =
+      Ok ((spec_magic ++ [cm; hm]) ++ tag ++ zeros (38 - hlen hm) ++ ivs ++ body).
+Proof.
+  intros c hbuf T P key seed cm hm Hp.
+  destruct (enc_explicit c hbuf T P key seed cm hm Hp)
+    as [ivs [body [tag [H1 [H2 [H3 [H4 [H5 [H6 H7]]]]]]]]].
+  exists ivs, body, tag. repeat (split; [assumption|]).
+  unfold enc. rewrite H7. unfold apply_writes. cbn [fold_left fst snd].
+  rewrite patch_nil_0.
+  rewrite patch_mid; [reflexivity | reflexivity |].
+  rewrite H6. apply zeros_length.
+Qed.
+
+Lemma C02_encrypted_file_is_documented_format_proof : forall c hbuf T P key seed cm hm,
+  enc_params c hbuf T P key seed cm hm ->
+  exists F, enc c hbuf T P key cm hm seed = Ok F /\
+            wenc_spec c T P key cm hm seed = Some F /\
+            length F = wenc_length T (length P).
+Proof.
+  intros c hbuf T P key seed cm hm Hp.
+  destruct (enc_file_explicit c hbuf T P key seed cm hm Hp)
+    as [ivs [body [tag [H1 [H2 [H3 [H4 [H5 [H6 H7]]]]]]]]].
+  eexists. split; [exact H7|]. split.
+  - unfold wenc_spec. cbv zeta. rewrite <- H1, H3, <- H5.
+    rewrite <- !app_assoc. reflexivity.
+  - rewrite (layout_length _ _ _ _ _ (hlen hm)); try assumption;
+      [| reflexivity | apply zeros_length | apply hlen_le].
+    unfold wenc_length. lia.
+Qed.
+
+Lemma C02_write_sequence_proof : forall c hbuf T P key seed cm hm,
+  enc_params c hbuf T P key seed cm hm ->
+  exists stream tag, enc_writes c hbuf T P key cm hm seed = Ok [(0%nat, stream); (10%nat, tag)] /\
+    length tag = hlen hm /\ length stream = wenc_length T (length P) /\
+    firstn (hlen hm) (skipn 10 stream) = zeros (hlen hm).
+Proof.
+  intros c hbuf T P key seed cm hm Hp.
+  destruct (enc_explicit c hbuf T P key seed cm hm Hp)
+    as [ivs [body [tag [H1 [H2 [H3 [H4 [H5 [H6 H7]]]]]]]]].
+  do 2 eexists. split; [exact H7|]. split; [exact H6|].
+  pose proof (hlen_le hm) as Hh. split.
+  - rewrite (layout_length _ _ _ _ _ (hlen hm)); try assumption;
+      [| reflexivity | apply zeros_length | apply zeros_length].
+    unfold wenc_length. lia.
+  - apply (layout_tag _ _ _ _ _ (hlen hm)); [reflexivity | apply zeros_length].
+Qed.
+
+Lemma C08_file_tag_is_hmac_of_body_proof : forall c hbuf T P key seed cm hm F,
+  enc_params c hbuf T P key seed cm hm ->
+  enc c hbuf T P key cm hm seed = Ok F ->
+  firstn (hlen hm) (skipn 10 F) = hmac_spec (hash_spec hm) key (skipn 48 F).
+Proof.
+  intros c hbuf T P key seed cm hm F Hp HF.
+  destruct (enc_file_explicit c hbuf T P key seed cm hm Hp)
+    as [ivs [body [tag [H1 [H2 [H3 [H4 [H5 [H6 H7]]]]]]]]].
+  rewrite H7 in HF. apply Ok_inj in HF. subst F.
+  pose proof (hlen_le hm) as Hh.
+  rewrite (layout_tag _ _ _ _ _ (hlen hm)) by (try assumption; reflexivity).
+  rewrite (layout_auth _ _ _ _ _ (hlen hm)) by
+    (try assumption; try reflexivity; apply zeros_length).
+  exact H5.
+Qed.
+
+Lemma C08_tag_field_zero_filled_proof : forall c hbuf T P key seed cm hm F,
+  enc_params c hbuf T P key seed cm hm ->
+  enc c hbuf T P key cm hm seed = Ok F ->
+  skipn (10 + hlen hm) (firstn 48 F) = zeros (38 - hlen hm).
+Proof.
+  intros c hbuf T P key seed cm hm F Hp HF.
+  destruct (enc_file_explicit c hbuf T P key seed cm hm Hp)
+    as [ivs [body [tag [H1 [H2 [H3 [H4 [H5 [H6 H7]]]]]]]]].
+  rewrite H7 in HF. apply Ok_inj in HF. subst F.
+  pose proof (hlen_le hm) as Hh.
+  apply (layout_zero _ _ _ _ _ (hlen hm)); try assumption; try reflexivity. apply zeros_length.
+Qed.
+
+(* non-vacuity: the hypotheses hold on a concrete non-trivial instance (40-byte plaintext,
+   two-block chunks, three workers, CBC, SHA-256), on which the conclusions are also computed *)
+Definition ex_P : list N := map N.of_nat (seq 1 40).
+Definition ex_key16 : list N := map N.of_nat (seq 7 16).
+Definition ex_seed : list N := [1; 2; 3]%N.
+
+Example enc_params_nonvacuous : enc_params 2 1 3 ex_P ex_key16 ex_seed 1%N 2%N.
+Proof.
+  constructor; try (vm_compute; reflexivity); try (vm_compute; discriminate);
+    try (repeat constructor).
+Qed.
+
+Example C02_nonvacuous :
+  exists F, enc 2 1 3 ex_P ex_key16 1%N 2%N ex_seed = Ok F /\
+            wenc_spec 2 3 ex_P ex_key16 1%N 2%N ex_seed = Some F /\
+            length F = wenc_length 3 (length ex_P) /\
+            firstn (hlen 2%N) (skipn 10 F) = hmac_spec (hash_spec 2%N) ex_key16 (skipn 48 F) /\
+            skipn (10 + hlen 2%N) (firstn 48 F) = zeros (38 - hlen 2%N).
+Proof.
+  destruct (C02_encrypted_file_is_documented_format_proof _ _ _ _ _ _ _ _ enc_params_nonvacuous)
+    as [F [H1 [H2 H3]]].
+  exists F. split; [exact H1|]. split; [exact H2|]. split; [exact H3|]. split.
+  - exact (C08_file_tag_is_hmac_of_body_proof _ _ _ _ _ _ _ _ F enc_params_nonvacuous H1).
+  - exact (C08_tag_field_zero_filled_proof _ _ _ _ _ _ _ _ F enc_params_nonvacuous H1).
+Qed.
